@@ -30,6 +30,7 @@ def build(ch):
     copy = ch.choose('copy', ['none', 'lower', 'higher', 'both'], free=True)
     copy_used = ch.choose('copy-used', [False, True], free=True) if copy != 'none' else False
     f55 = ch.choose('flag55', ['', '*', '+'], free=True)
+    kind50 = ch.choose('kind50', ['so', 'sq', 'sq-tr', 'so-tr', 'gq-tr', 's-tr'], free=True)
     tr20 = ch.choose('tr-on-20', [False, True], free=True)
     macro = ch.choose('macro-flag', ['', '*', '+'], free=True)
     skip = ch.choose('skip-dedup', [False, True], free=True)
@@ -40,10 +41,22 @@ def build(ch):
                 '5 0 -55 -50 (-10:20:-30:40) imp:n=1']
     # surface 20 optionally carries a TR number (pure translation chosen so that the locus is still x = 3)
     s20 = '%s20 9 px 1' % f20 if tr20 else '%s20 px 3' % f20
-    st.surfs = ['10 px -3', s20, '30 py -3', '40 py 3', '%s50 so 8' % f50, '%s60 pz 9' % f60,
+    # the outer flagged surface 50: several kinds, optionally carrying a TR number (a small displacement)
+    card50 = {'so': 'so 8', 'sq': 'sq 1 1 1 0 0 0 -64 0 0 0', 'sq-tr': '8 sq 1 1 0.8 0 0 0 -64 0 0 0',
+              'so-tr': '8 so 8', 'gq-tr': '8 gq 1 1 1 0 0 0 0 0 0 -64', 's-tr': '8 s 0.1 0 0 8'}[kind50]
+    st.surfs = ['10 px -3', s20, '30 py -3', '40 py 3', '%s50 %s' % (f50, card50), '%s60 pz 9' % f60,
                 '%s70 pz -9' % f70, '%s55 k/z 0 6 -1 0.25 1' % f55]
+    st.data = []
     if tr20:
-        st.data = ['tr9 2 0 0']
+        st.data.append('tr9 2 0 0')
+    if kind50.endswith('-tr'):
+        st.data.append('tr8 0.2 -0.1 0.3 0 1 0 -1 0 0 0 0 1')
+    m8 = refsem.Motion((0.2, -0.1, 0.3), refsem.rotation([0, 0, 1], 90.0).T)
+    base50 = {'so': ('so', [8.0]), 'sq': ('sq', [1, 1, 1, 0, 0, 0, -64, 0, 0, 0]),
+              'sq-tr': ('sq', [1, 1, 0.8, 0, 0, 0, -64, 0, 0, 0]), 'so-tr': ('so', [8.0]),
+              'gq-tr': ('gq', [1, 1, 1, 0, 0, 0, 0, 0, 0, -64]), 's-tr': ('s', [0.1, 0, 0, 8.0])}[kind50]
+    ref50 = refsem.mcnp_surface(*base50)
+    st.ref50 = ref50.moved(m8) if kind50.endswith('-tr') else ref50
     if copy in ('lower', 'both'):
         st.surfs.append('15 px 3')
     if copy in ('higher', 'both'):
@@ -99,7 +112,7 @@ def check_state(scn, st, corrupt=False):
             if sid not in t4.surfs:
                 continue
             f, deg = oracle.t4_surface_fn(t4, sid)
-            g, gdeg = REF[s].comps[0]
+            g, gdeg = (st.ref50 if s == 50 else REF[s]).comps[0]
             if geomdecide.identify(f, g, max(deg, gdeg)) is not None:
                 hits.append(i)
         good = [i for i in hits if entries[i][0] == KIND[fl]]
